@@ -419,7 +419,7 @@ func panicSignature(cs c12case, r result) string {
 		tx := txFromCase(cs)
 		detail := fn
 		if tx != nil {
-			if tx.To == nil && strings.Contains(r.Panic, "nil pointer") {
+			if tx.To == nil && strings.Contains(r.Panic, "nil pointer") && strings.Contains(r.Site, "validation.") {
 				detail = txName(tx.Type) + "-nil-recipient"
 			} else {
 				detail = txName(tx.Type) + ":" + fn
